@@ -182,6 +182,17 @@ impl<'a> Hist<'a> {
                 _ => {}
             }
         }
+        // removal calls that had begun but not returned when the execution was torn down: the
+        // handle may already be gone, so it counts as alive only up to the start of that call
+        for (is_rx, handle, stream, t0) in &ex.stats.inflight_drops {
+            if *is_rx {
+                if let Some(e) = h.streams.get_mut(stream).and_then(|s| s.handles.get_mut(handle)) {
+                    e.1 = e.1.min(*t0);
+                }
+            } else if let Some(e) = h.senders.get_mut(handle) {
+                e.1 = e.1.min(*t0);
+            }
+        }
         h
     }
 
